@@ -366,6 +366,13 @@ func (e *ex) doReq(id, u, rS, lenS, opt string) core.Result {
 		res.Sig, res.Fail = "c18:e2e:head-altered", fmt.Sprintf("origin answered %d with %d body bytes, the client got status %d, Content-Length %d", pl.status, blen, status, cl)
 	case !closed && len(got) != blen:
 		res.Sig, res.Fail = "c18:short-write", fmt.Sprintf("the connection stays open but only %d of %d body bytes arrived (%v)", len(got), blen, rerr)
+	case r.shaped && cs.c.Context.URLRegex != "" && func() bool {
+		sig, msg := throttleAtStart(r.os, rs, cs.c.Context)
+		if sig != "" {
+			res.Sig, res.Fail = sig, fmt.Sprintf("conn %s, URL %s: %s", id, url, msg)
+		}
+		return sig != ""
+	}():
 	case r.shaped && cs.c.Context.URLRegex == "":
 		res.Sig, res.Fail = "c18:matching-url-not-shaped", fmt.Sprintf("URL %s matches shape %s of the configuration the connection was accepted under, but the proxy set no shaping context", url, u)
 	}
